@@ -278,3 +278,15 @@ Proof.
   eexists; split; vm_compute; reflexivity.
 Qed.
 Print Assumptions C04_direct_nonvacuous.
+
+(* the guard [NoDup order] cannot be dropped from C04_direct_assembly (for the MODEL: [order] is an oracle input): with the
+   key ACCG listed twice the model builds a table with a duplicated entry and returns a graph that is not the assembly *)
+Example C04_direct_order_guard_needed :
+  exists (lreads : list lread) order g, Forall (fun r => wf_dna (fst r)) lreads /\ length order = 2 /\
+    direct 4 false 1 0 0 lreads order = Some g /\ ~ assembly_of 4 false 1 0 lreads g.
+Proof.
+  exists [([0;1;2;2;3], 0)]%N, [[0;1;1;2]; [0;1;1;2]]%N. eexists. split; [repeat constructor; cbv; auto|].
+  split; [reflexivity|]. split; [vm_compute; reflexivity|].
+  intro H. apply chk_assembly_complete in H. vm_compute in H. discriminate H.
+Qed.
+Print Assumptions C04_direct_order_guard_needed.
